@@ -13,9 +13,11 @@ From Algo.C02 Require Import Model Spec ProofsChain ProofsLinear ProofsPrime Pro
 Import ListNotations.
 
 (** Separate chaining: full refinement, for every key/value type with a decidable equality, every
-    hash function, all options with maxLF*4 >= 1 and 2*minLF <= maxLF (the defaults 2 and 10, and
-    everything tighter), the default or any power-of-two capacity >= 4, every iteration oracle and
-    every history. *)
+    hash function, all options with maxLF*4 >= 1 — no relation between minLF and maxLF is needed: when
+    maxLF < 2*minLF the table rebuilt by a shrink grows again while entries are re-inserted (a resize
+    nested in a resize), which the proof covers (nesting never goes deeper: the inner growth re-inserts
+    only the entries accumulated so far, whose load in the doubled table is below maxLF/2) — the
+    default or any power-of-two capacity >= 4, every iteration oracle and every history. *)
 Theorem C02_refines_chain :
   forall (K V : Type) (eqb : K -> K -> bool) (eqv : V -> V -> bool) (hash : K -> N) (minlf maxlf : lf),
     (forall a b, eqb a b = true <-> a = b) ->
@@ -28,7 +30,7 @@ Proof. intros. apply chain_refines; auto. Qed.
 
 (** Linear probing: full refinement — including the cluster re-insertion loop of Delete — for every
     key/value type with a decidable equality, every hash function, all options with
-    maxLF <= 1/2, maxLF*31 >= 1 and 2*minLF <= maxLF (the defaults 1/8 and 1/2 and everything tighter),
+    maxLF <= 1/2 and maxLF*31 >= 1 (any minLF: nested resizes during a shrink are covered),
     the default or any power-of-two capacity >= 32, every iteration oracle and every history. *)
 Theorem C02_refines_linear :
   forall (K V : Type) (eqb : K -> K -> bool) (eqv : V -> V -> bool) (hash : K -> N) (minlf maxlf : lf),
